@@ -44,11 +44,11 @@ CHECKS = {
    design="6 C17"),
  "C04": dict(
    text="Bounded exhaustive symbolic check of the real FKMNonlinearDetector (first and second HCM pass incl. the junction logic, find_turns, sample tail, recorder) on symbolic integer load sequences against the rainflow cycles of the periodic reversal sequence started at its largest absolute load: multiset of second-pass (loads_min, loads_max) == oracle cycles, every second-pass hysteresis closed, half-counted hystereses only in the first pass and symmetric about zero, and invariance of the second-pass cycles under one inserted non-reversal sample at every position incl. the end/junction.",
-   note="Bound: sequence length 2..5 (quick) / 2..6 (thorough); refinement base length 2..3 / 2..4. Integer loads (tolerance comparisons exact, rewritten to integer arithmetic). Linear stub law (counting depends on loads only). Two junction defects found by this check were repaired in /repo (b090510, 375d6ae); no region is excluded.",
+   note="Bound: sequence length 2..5 (quick) / 2..6 (thorough); refinement base length 2..3 / 2..4. Integer loads (tolerance comparisons exact, rewritten to integer arithmetic). Linear stub law (counting depends on loads only). Two junction defects found by this check were repaired in /repo (b090510, 375d6ae); no region is excluded. Cases with int8 input arrays (loads up to +-100) are decided through the concrete replay of every path witness on the real code (integer wrap-around is not part of the object-dtype execution).",
    design="6 C04"),
  "C05": dict(
    text="Bounded exhaustive symbolic check of the HCM stress-strain bookkeeping of the real FKMNonlinearDetector / FKMNonlinearRecorder against an independent scalar implementation of the HCM case analysis (primary branch, Masing secondary branches from the reversal point, Memory 1-3, running strain extremes, pass numbers): every column of recorder.collective and the visited strain values; multi-point series (non-contiguous node ids, proportional loads) give every point its single-point rows, also when the history is fed in several process() calls with borders anywhere (any samples, compared with the point processed alone through the same calls); negated loads mirror all stresses and strains.",
-   note="Bound: 2 and 4 reversals per period (proper reversal sequences incl. start from zero and junction; everything else is C04), 1..3 points with factors 1/2, 2, 3. Notch law = odd extensions of positive increasing uninterpreted functions (contract stub); concrete replays use an analytic law. Integer loads. The oracle was written from the same reading of the guideline as the code. Multi-point running strain extremes are not compared (decided on the first node; equality per node needs Masing/convexity). Chunked multi-point cases: 4 (quick) / 4..5 (thorough) integer samples, one or two chunk borders. A defect found by this check was repaired (be8c19e).",
+   note="Bound: 2 and 4 reversals per period (proper reversal sequences incl. start from zero and junction; everything else is C04), 1..3 points with factors 1/2, 2, 3. Notch law = odd extensions of positive increasing uninterpreted functions (contract stub); concrete replays use an analytic law. Integer loads. The oracle was written from the same reading of the guideline as the code. Multi-point running strain extremes are not compared (decided on the first node; equality per node needs Masing/convexity). Chunked multi-point cases: 4 (quick) / 4..5 (thorough) integer samples, one or two chunk borders, load steps numbered consecutively across the calls; both HCM passes on 3 (quick) / 3..4 (thorough) arbitrary samples with load step labels in any order. Histories that re-use load step labels across calls are outside (the original tree fails on them in several places, see DESIGN.md section 8). A defect found by this check was repaired (be8c19e, follow-up 0421c51).",
    design="6 C05"),
  "C08": dict(
    text="Symbolic check of the real WoehlerCurve accessor in log-domain arithmetic (every positive quantity is 10**e with e a real symbol, so the power laws are linear arithmetic on exponents): cycles/load mutual inverses across the knee and for k_2 = inf, knee value, slopes k_1 above and k_2 below the endurance limit, non-increasing in load, Miner variants change only k_2 and leave the original untouched, cycles grow with the failure probability, N_90/N_10 = TN and SD_90/SD_10 = TS, group law and identity of transform_to_failure_probability, std <-> scatter range inverses with T = 10**(2 z_0.9 s), array and Series input == scalar calls.",
@@ -56,14 +56,14 @@ CHECKS = {
    design="6 C08"),
  "C09": dict(
    text="Symbolic check of the encodable clauses: P_RAM / P_RAJ component Woehler curves (log domain): calc_N and calc_P mutual inverses in the finite range, continuity at N = 1e3 and at the endurance knee, strictly decreasing, infinite at and below the endurance value; P_RAM damage parameter == sqrt((S_a + k S_m) eps_a E) with the guideline's mean-stress factor and zero for a negative product (sqrt exact); DamageCalculatorPRAM lifetime (sequence repetitions and cycles, infinite-life flag) == literal accumulation of first-pass damage once and second-pass damage repeatedly, half hystereses half, early failure by running sum, for every closed/half x pass pattern up to the bound; gamma_L of the normal / log-normal / blanket load safety accessors == guideline formulas.",
-   note="Claimed in part: compute_beta (root search on |Phi(x)-P_A|), the P_RAJ damage parameter (cos, real powers, Newton) and DamageCalculatorPRAJ are outside. Curve exponents are the constants of three material groups; R_m in {400,600,1200}; P_RAM tables with float and with integer-typed stress columns (dtype effects show in the concrete replay of every path witness on the real code); x**y in the damage calculator is an arbitrary positive number depending on (x,y) (represented as 1/t, t > 0 fresh); 1..3 (quick) / 1..5 (thorough) hystereses.",
+   note="Claimed in part: compute_beta (root search on |Phi(x)-P_A|), the P_RAJ damage parameter (cos, real powers, Newton) and DamageCalculatorPRAJ are outside. Curve exponents are the constants of three material groups; R_m in {400,600,1200}; P_RAM tables with float and with integer-typed stress columns and integer cycle numbers for the curves (dtype effects show in the concrete replay of every path witness on the real code); hysteresis tables may contain P_RAM = 0 rows; x**y in the damage calculator is an arbitrary positive number depending on (x,y) (represented as 1/t, t > 0 fresh); 1..3 (quick) / 1..5 (thorough) hystereses.",
    design="6 C09"),
  "C18": dict(
    text="Bounded exhaustive symbolic check of the one encodable clause: FatigueData zone logic on symbolic loads and cycles for every fracture-flag pattern: finite and infinite zone are disjoint and cover all tests, every infinite-zone load <= reported transition <= every finite-zone load, all tests in the finite zone without run-outs, zone membership and transition invariant under row permutation; multiplying all loads by a symbolic c > 0 multiplies the transition (the elementary endurance estimate) by c and keeps the zones, multiplying all cycle numbers changes neither.",
    note="Claimed for this clause only: equivariance, exact recovery and likelihood ordering of the Elementary / Probit / MaxLike analyzers are outside (least squares, scipy.optimize.fmin, norm.ppf on symbolic data have no encoding). 2..3 (quick) / 2..5 (thorough) test rows; admissible data (two distinct fracture loads and cycle numbers). pandas.Series.unique gets an object-dtype fall-back.",
    design="6 C18"),
  "C19": dict(
-   text="Bounded symbolic check of two clauses. Hot spots: HotSpot.calc on concrete small meshes (shared nodes, disconnected, chains, id gaps, shuffled rows) with symbolic pairwise distinct field values of any sign against union-find components: exactly the entries >= fraction * maximum are labelled, labels are the connected components under shared-node / shared-element adjacency, numbered by descending peak. Gradients of a linear field f = g.x + f0 with symbolic g and f0: the shape-function operator Gradient3D returns g at every node of a tetrahedron with fully symbolic node positions (quick), of two tetrahedra sharing a face and of a hexahedron in right- and left-handed node order (concrete perturbed positions in quick, fully symbolic positions - 15 / 24 symbols - in thorough), decided as rational-function identities; the least-squares operator Gradient returns g at every node for node ids 1..N, permuted, with gaps, with gaps and unordered.",
+   text="Bounded symbolic check of two clauses. Hot spots: HotSpot.calc on concrete small meshes (shared nodes, disconnected, chains, id gaps, shuffled rows) with symbolic pairwise distinct field values of any sign against union-find components: exactly the entries >= fraction * maximum are labelled, labels are the connected components under shared-node / shared-element adjacency, numbered by descending peak. Gradients of a linear field f = g.x + f0 with symbolic g and f0: the shape-function operator Gradient3D returns g at every node of a tetrahedron with fully symbolic node positions (quick), of two tetrahedra sharing a face and of a hexahedron in right- and left-handed node order (concrete perturbed positions in quick, fully symbolic positions - 15 / 24 symbols - in thorough), decided as rational-function identities; the least-squares operator Gradient returns g at every node for node ids 1..N, permuted, with gaps, with gaps and unordered, and at the apex of a tetrahedron over a flat base; the same Gradient3D operator object asked again after the mesh was stretched in place answers for the current mesh.",
    note="Claimed for these clauses: mesh mapping (Qhull) and surface detection (arccos) are outside. Contract stubs in the symbolic run: numpy.linalg.inv / det of a 3x3 matrix by adjugate and determinant (non-degenerate elements assumed: Jacobian regular at every corner), numpy.linalg.lstsq for a concrete matrix and symbolic right-hand side by the normal equations in exact rationals. Hot-spot meshes with 4..6 entries enumerated, fractions 0.5 and 0.9. A defect found by this check was repaired (node ids used as positions in Gradient).",
    design="6 C19"),
 }
